@@ -15,7 +15,7 @@
    finding played-missing-request-before-sync-start); [events_once] is the part that holds for all
    histories (at most once each; completed only with stopped; stopped iff the show is stopped). *)
 From Common Require Import Prelude.
-From C17 Require Import Model Lemmas.
+From C17 Require Import Model Player Lemmas.
 Open Scope Z_scope.
 
 (* ---- schedule ------------------------------------------------------------------------------- *)
@@ -144,55 +144,218 @@ Proof. vm_compute. repeat split; reflexivity. Qed.
 Print Assumptions control_reanchors_ex.
 
 (* ---- clean-up -------------------------------------------------------------------------------- *)
-(* [reach]: every world obtained from empty stacks by playing shows into free slots and by any requests
-   (timer expiries included) for any show at any instants.  In every such world a stopped show owns no
-   entry on any light stack. *)
+(* [reach]: every world obtained from empty stacks of lights with ANY default fades by playing shows into free
+   slots, by any requests (timer expiries included) for any show and by the expiry of any light's fade-out
+   removal delay, at any instants.
+   In every such world a stopped show owns no live entry on any light stack ([no_live]: what can be left of
+   it is only the fade-out of an entry, on a light with a default fade or after `stop-f...`), and every such
+   fade-out has its removal delay pending ([timed]). *)
 Theorem stop_clears_context :
   forall (w : world) (sid : Z) (r : rs),
-    reach w -> 0 <= sid -> get_show w sid = Some r -> r_stopped r = true -> clean sid (w_lights w).
+    reach w -> 0 <= sid -> get_show w sid = Some r -> r_stopped r = true ->
+    no_live sid (w_lights w) /\ Forall (timed sid) (w_lights w).
 Proof. exact stop_clears_context_l. Qed.
 Print Assumptions stop_clears_context.
 
+(* ... so once its removal delays have expired, nothing of the stopped show is left on any stack *)
+Theorem stopped_and_faded_clean :
+  forall (w : world) (sid : Z) (r : rs),
+    reach w -> 0 <= sid -> get_show w sid = Some r -> r_stopped r = true ->
+    Forall (fun L => proj sid (l_timers L) = []) (w_lights w) -> clean sid (w_lights w).
+Proof. exact stopped_and_faded_clean_l. Qed.
+Print Assumptions stopped_and_faded_clean.
+
+(* "after stop plus the fade-out time": if every removal delay of the stopped show is due by t and the clock
+   has fired everything due by t ([next_due_light] finds nothing), nothing of the show is left *)
+Theorem stop_then_fade_clean :
+  forall (w : world) (sid : Z) (r : rs) (t : Z),
+    reach w -> 0 <= sid -> get_show w sid = Some r -> r_stopped r = true ->
+    (forall L d, In L (w_lights w) -> In (sid, d) (l_timers L) -> d <= t) ->
+    next_due_light t 0 (w_lights w) None = None ->
+    clean sid (w_lights w).
+Proof. exact stop_then_fade_clean_l. Qed.
+Print Assumptions stop_then_fade_clean.
+
 Theorem stop_request_clears :
   forall (w : world) (now sid : Z) (r : rs),
-    reach w -> 0 <= sid -> get_show w sid = Some r -> clean sid (w_lights (world_op now sid Stop w)).
+    reach w -> 0 <= sid -> get_show w sid = Some r -> no_live sid (w_lights (world_op now sid Stop w)).
 Proof. exact stop_request_clears_l. Qed.
 Print Assumptions stop_request_clears.
 
-(* frame: whatever is requested of show sid (stop and completion included), the entries every other show
-   owns on every light are exactly what they were *)
+(* what stop() of a live show does to the lights, exactly: [clear_light] on every light, which turns a live
+   entry of the show into a fade-out whose removal is due at now + the light's default fade (removes it at
+   once when the light has none) and does not touch a light on which the show owns nothing live *)
+Theorem stop_fades_out :
+  forall (w : world) (now sid : Z) (r : rs),
+    get_show w sid = Some r -> r_stopped r = false ->
+    w_lights (world_op now sid Stop w) = map (clear_light sid now) (w_lights w).
+Proof. exact stop_fades_out_l. Qed.
+Print Assumptions stop_fades_out.
+
+Theorem clear_light_spec :
+  forall (sid now : Z) (L : light),
+    (owns sid L = true -> 0 < l_fade L ->
+       proj sid (l_stack (clear_light sid now L)) = [(sid, -1)] /\
+       proj sid (l_timers (clear_light sid now L)) = [(sid, now + l_fade L)]) /\
+    (owns sid L = true -> l_fade L <= 0 ->
+       proj sid (l_stack (clear_light sid now L)) = [] /\ l_timers (clear_light sid now L) = l_timers L) /\
+    (owns sid L = false -> clear_light sid now L = L).
+Proof. exact clear_light_spec_l. Qed.
+Print Assumptions clear_light_spec.
+
+(* the removal delay of a key expires: its fade-out entry and the delay are gone; a live entry the key has
+   set meanwhile stays *)
+Theorem fade_out_ends :
+  forall (sid : Z) (L : light),
+    fading sid (fire_rem sid L) = false /\ owns sid (fire_rem sid L) = owns sid L /\
+    proj sid (l_timers (fire_rem sid L)) = [].
+Proof. exact fire_rem_spec. Qed.
+Print Assumptions fade_out_ends.
+
+(* frame: whatever is requested of show sid (stop and completion included), what every other show has on
+   every light (entries AND pending fade-out removals) is exactly what it was; the same for the end of
+   another key's fade-out *)
 Theorem other_shows_untouched :
   forall (now sid : Z) (o : op) (w : world) (sid' : Z),
     sid' <> sid -> others sid' (w_lights (world_op now sid o w)) = others sid' (w_lights w).
 Proof. exact world_op_frame. Qed.
 Print Assumptions other_shows_untouched.
 
-(* once every show is stopped the stacks hold nothing of any show: as if none had ever run *)
+Theorem fade_end_touches_own_key_only :
+  forall (d k key : Z) (w : world) (sid' : Z),
+    sid' <> key -> others sid' (w_lights (world_fire d k key w)) = others sid' (w_lights w).
+Proof. exact world_fire_frame. Qed.
+Print Assumptions fade_end_touches_own_key_only.
+
+(* once every show is stopped no show owns a live entry, and when the fade-outs have ended the stacks hold
+   nothing of any show: as if none had ever run *)
 Theorem all_stopped_all_dark :
   forall (w : world),
     reach w ->
     (forall sid r, 0 <= sid -> get_show w sid = Some r -> r_stopped r = true) ->
-    forall sid, 0 <= sid -> clean sid (w_lights w).
+    forall sid, 0 <= sid ->
+      no_live sid (w_lights w) /\
+      (Forall (fun L => proj sid (l_timers L) = []) (w_lights w) -> clean sid (w_lights w)).
 Proof. exact all_stopped_all_dark_l. Qed.
 Print Assumptions all_stopped_all_dark.
 
+(* two shows share light 0 (default fade 500 ms) and light 2 (250 ms); show 0 is stopped at 1.2 s, show 1 at
+   1.3 s: both fade out independently, each removal at its own stop + fade *)
 Definition ex_cfg_b : cfg := mkCfg [mkStep 1000000 [(0, 3); (2, 3)]] 4 (-1) 1 0 false true.
-Definition ex_world : world :=
-  world_op 1200000 0 Stop
-    (world_op 1125000 0 Fire
-       (world_play 1100000 1 ex_cfg_b
-          (world_play 1000000 0 ex_cfg (mkW (repeat None 2) (repeat [] 4) [])))).
+Definition ex_w0 : world := mkW (repeat None 2) (map (fun f => mkLight f [] []) [500000; 0; 250000; 0]) [].
+Definition ex_world1 : world :=
+  world_op 1125000 0 Fire (world_play 1100000 1 ex_cfg_b (world_play 1000000 0 ex_cfg ex_w0)).
+Definition ex_world : world := world_op 1300000 1 Stop (world_op 1200000 0 Stop ex_world1).
 Example stop_clears_context_ex :
   reach ex_world /\
   (exists r, get_show ex_world 0 = Some r /\ r_stopped r = true) /\
-  w_lights ex_world = [[(1, 3)]; []; [(1, 3)]; []] /\
-  w_lights (world_op 1125000 0 Fire (world_play 1100000 1 ex_cfg_b
-             (world_play 1000000 0 ex_cfg (mkW (repeat None 2) (repeat [] 4) [])))) =
-  [[(0, 2); (1, 3)]; []; [(1, 3)]; []].
+  map l_stack (w_lights ex_world1) = [[(0, 2); (1, 3)]; []; [(1, 3)]; []] /\
+  w_lights ex_world =
+    [mkLight 500000 [(0, -1); (1, -1)] [(0, 1700000); (1, 1800000)]; mkLight 0 [] [];
+     mkLight 250000 [(1, -1)] [(1, 1550000)]; mkLight 0 [] []] /\
+  w_lights (advance_to 10 1700000 ex_world) =
+    [mkLight 500000 [(1, -1)] [(1, 1800000)]; mkLight 0 [] []; mkLight 250000 [] []; mkLight 0 [] []] /\
+  next_due_light 1800000 0 (w_lights (advance_to 10 1800000 ex_world)) None = None /\
+  map l_stack (w_lights (advance_to 10 1800000 ex_world)) = [[]; []; []; []].
 Proof.
   split.
-  - unfold ex_world. repeat (first [apply ROp | apply RPlay | apply R0]); try lia; try discriminate;
+  - unfold ex_world, ex_world1, ex_w0. repeat (first [apply ROp | apply RPlay | apply R0]); try lia; try discriminate;
       vm_compute; try reflexivity; try lia.
-  - split; [eexists; split; vm_compute; reflexivity|]. split; vm_compute; reflexivity.
+  - split; [eexists; split; vm_compute; reflexivity|]. repeat split; vm_compute; reflexivity.
 Qed.
 Print Assumptions stop_clears_context_ex.
+
+(* ---- loop count ------------------------------------------------------------------------------ *)
+(* A show with loops = L >= 0 whose steps all have a positive duration/speed, not manual_advance, played
+   running from step index i0 < n (any start_step: positive, 0 or negative), left to its own timers
+   ([free_run k]: its next k timer expiries): executes exactly (L+1)*n - i0 steps, posts looped exactly L
+   times, played once, then stops and completes once -- for every L, n, i0, as soon as k exceeds that
+   number of steps. *)
+Theorem loops_exact :
+  forall (c : cfg) (t0 : Z) (k : nat),
+    let n := Z.of_nat (length (c_steps c)) in
+    c_steps c <> [] -> c_manual c = false -> c_running c = true -> 0 <= c_loops c ->
+    (forall i, 0 <= i < n -> 0 < ttn (dur_of (c_steps c) i) (c_speed4 c)) ->
+    start_idx c < n ->
+    let T := (c_loops c + 1) * n - start_idx c in
+    T < Z.of_nat k ->
+    let r0 := fst (play_rs c t0) in
+    let all := snd (play_rs c t0) ++ snd (free_run k r0) in
+    r_stopped (fst (free_run k r0)) = true /\ Z.of_nat (cnt 0 all) = T /\ Z.of_nat (cnt 2 all) = c_loops c /\
+    cnt 3 all = 1%nat /\ cnt 4 all = 1%nat /\ cnt 1 all = 1%nat.
+Proof. exact loops_exact_l. Qed.
+Print Assumptions loops_exact.
+
+Example loops_exact_ex :
+  start_idx ex_cfg = 1 /\ c_loops ex_cfg = 1 /\
+  (forall i, 0 <= i < 3 -> 0 < ttn (dur_of (c_steps ex_cfg) i) (c_speed4 ex_cfg)) /\
+  let all := snd (play_rs ex_cfg 1000000) ++ snd (free_run 6 (fst (play_rs ex_cfg 1000000))) in
+  cnt 0 all = 5%nat /\ cnt 2 all = 1%nat /\ cnt 3 all = 1%nat.
+Proof.
+  split; [reflexivity|]. split; [reflexivity|]. split; [|vm_compute; repeat split; reflexivity].
+  intros i Hi. assert (H : i = 0 \/ i = 1 \/ i = 2) by lia. destruct H as [->|[->| ->]]; vm_compute; reflexivity.
+Qed.
+Print Assumptions loops_exact_ex.
+
+(* ---- show_player: the instance dictionary (Player.v) ------------------------------------------- *)
+(* [preach]: every state of the player obtained from any reachable world by any actions (play into a free show
+   id, stop, pause, resume, advance, step_back, update) for any (context, key), clear_context of any context,
+   timer expiries of any show and removal-delay expiries of any light, at any instants.
+   At most one running show per (context, key): two shows started through the player under the same
+   (context, key) that both have not stopped are the same show. *)
+Theorem one_show_per_key :
+  forall (p : pstate) (k : ckey) (sid1 sid2 : Z) (r1 r2 : rs),
+    preach p -> In (sid1, k) (p_hist p) -> In (sid2, k) (p_hist p) ->
+    get_show (p_w p) sid1 = Some r1 -> get_show (p_w p) sid2 = Some r2 ->
+    r_stopped r1 = false -> r_stopped r2 = false -> sid1 = sid2.
+Proof. exact one_show_per_key_l. Qed.
+Print Assumptions one_show_per_key.
+
+(* the stop action for a key stops exactly the show bound to it: that show is stopped and owns no live light
+   entry, the key is free, every other binding, every other show and what the other shows have on the lights
+   are what they were *)
+Theorem stop_by_key :
+  forall (p : pstate) (now : Z) (k : ckey) (sid : Z),
+    preach p -> lookup k (p_inst p) = Some sid ->
+    let p' := p_act now k AStop p in
+    (exists r', get_show (p_w p') sid = Some r' /\ r_stopped r' = true) /\
+    no_live sid (w_lights (p_w p')) /\
+    lookup k (p_inst p') = None /\
+    (forall k', k' <> k -> lookup k' (p_inst p') = lookup k' (p_inst p)) /\
+    (forall s, 0 <= s -> s <> sid -> get_show (p_w p') s = get_show (p_w p) s) /\
+    (forall s, s <> sid -> others s (w_lights (p_w p')) = others s (w_lights (p_w p))).
+Proof. exact stop_by_key_l. Qed.
+Print Assumptions stop_by_key.
+
+(* a mode stops (clear_context): every show ever started under its context is stopped and owns no live light
+   entry, and the context's dictionary ends empty *)
+Theorem mode_stop_clears :
+  forall (p : pstate) (now ctx sid key : Z),
+    preach p -> In (sid, (ctx, key)) (p_hist p) ->
+    (exists r', get_show (p_w (p_clear now ctx p)) sid = Some r' /\ r_stopped r' = true) /\
+    no_live sid (w_lights (p_w (p_clear now ctx p))) /\
+    lookup (ctx, key) (p_inst (p_clear now ctx p)) = None.
+Proof. exact mode_stop_clears_l. Qed.
+Print Assumptions mode_stop_clears.
+
+(* key (7,1): show 0 played, then show 1 played on the same key (show 0 is replaced), key (7,2): show 2 *)
+Definition ex_p : pstate :=
+  p_act 1300000 (7, 2) (APlay 2 ex_cfg_b)
+    (p_act 1200000 (7, 1) (APlay 1 ex_cfg_b)
+       (p_act 1000000 (7, 1) (APlay 0 ex_cfg)
+          (mkP (mkW (repeat None 3) (map (fun f => mkLight f [] []) [500000; 0; 250000; 0]) []) [] []))).
+Example one_show_per_key_ex :
+  preach ex_p /\
+  p_inst ex_p = [((7, 2), 2); ((7, 1), 1)] /\ p_hist ex_p = [(2, (7, 2)); (1, (7, 1)); (0, (7, 1))] /\
+  map show_final (w_shows (p_w ex_p)) =
+    [[1; 1; 2; 1; 1125000; -1]; [1; 0; 1; -1; 2200000; 2200000]; [1; 0; 1; -1; 2300000; 2300000]] /\
+  map show_final (w_shows (p_w (p_clear 1400000 7 ex_p))) =
+    [[1; 1; 2; 1; 1125000; -1]; [1; 1; 1; -1; 2200000; -1]; [1; 1; 1; -1; 2300000; -1]] /\
+  p_inst (p_clear 1400000 7 ex_p) = [].
+Proof.
+  split.
+  - unfold ex_p. repeat (first [apply PAct | apply P0 | apply (R0 3 [500000; 0; 250000; 0])]);
+      cbn [act_ok]; repeat split; try lia; try discriminate; vm_compute; try reflexivity; try lia.
+  - repeat split; vm_compute; reflexivity.
+Qed.
+Print Assumptions one_show_per_key_ex.
